@@ -13,6 +13,7 @@ EXPLANATION = (
     "every recursive function that consumes input bytes compares a depth/budget parameter before recursing; (R4) wasm "
     "exports decode with a matched error arm (no unwrap on the request path); (R5) section offsets/lengths are gated before "
     "slicing. Bounds-check panics on slice indexing, loop termination and proportionality beyond pre-allocation are NOT decided."
+    ' Round 2: (R6) a 64-bit length read from the input is never added/multiplied with plain arithmetic before an upper-bound gate (evaluated on the helper-inlined view); (R7) a constant index into a Vec filled from the input is dominated by a non-emptiness gate on the Vec or its declared count.'
 )
 ASSUMPTIONS = ["third-party decoders (minicbor, ciborium, serde) are total", "indexing safety is value-range reasoning and out of static reach"]
 FLOOR = 60
